@@ -6,6 +6,15 @@ definition/removal, cron following the local wall clock and period keeping its s
 change - under clock drift (early wake-ups exercise the re-wait loops), timer lateness, sub-second
 start instants, DST days, several specifications, both subsystems and reload at arbitrary instants.
 
+Besides decorated functions the workload contains *waiters*: long-running functions that call
+task.wait_until(time_trigger=<1-2 specifications>, ...) in a loop, alone or together with state / event /
+MQTT / webhook conditions (optionally state_hold), with seeded pauses between the calls, while the driver
+pokes those other conditions - mostly without satisfying them (a watched variable changes but the
+expression stays false, an event / message / request whose filter is false, a state_hold that is started
+and cancelled), sometimes satisfying them.  Every call is a trigger of its own: 'now' is the instant the
+call began, and the call has to return trigger_type "time" at the earliest denoted instant after that,
+with trigger_time equal to it, however often it is woken up in between.
+
 Oracle: sim.calendar enumerates the denoted instants in the simulated window from the documentation.
 """
 
@@ -16,7 +25,7 @@ import datetime as dt
 import random
 
 from .. import calendar as C
-from ..common import base_result, gen_cfg
+from ..common import apply_common, base_result, gen_cfg
 from ..world import World
 
 PROPERTY = "C06"
@@ -25,27 +34,44 @@ RULE = (
     "seeded generation of 1-3 functions x 1-3 time specifications (once/period/cron over the documented date, time "
     "and offset grammar) run for a simulated window of minutes (second-level periods), hours (minute-level) or up "
     "to 3 days (daily/cron), on ordinary and DST-transition days in 4 time zones, with drift, timer lateness, "
-    "stalls and optional reload; distinct = scenario digest; non-trivial = at least 3 denoted instants fired"
+    "stalls and optional reload; in 40% of the runs additionally 1-2 waiter functions that loop over "
+    "task.wait_until(time_trigger=1-2 such specifications [+ state/event/mqtt/webhook conditions, state_hold]) with "
+    "seeded pauses, and 0-8 pokes of those other conditions at seeded instants (non-qualifying, 15% qualifying, "
+    "hold start+cancel); distinct = scenario digest; non-trivial = at least 3 denoted instants fired"
 )
 ASSUMPTIONS = [
     "the successor function timer_trigger_next is a pure function; besides the 'now' values the simulated triggers "
     "visit it is probed directly (a differential check riding on the scenario, not a simulation result) at 'now' "
-    "values exactly on denoted instants, 1 us either side and at random times, on non-DST days only",
+    "values exactly on denoted instants, 1 us either side and at random times, on non-DST days only; in half of the "
+    "runs (spec.steer false) also for once(2/29 hh:mm) around leap and ordinary years (accepted: the next real 29th of "
+    "February, or the 2/28 / 3/1 reading for the years without one) and for period(<date time>, 0.1-1.5 s)",
     "wall-clock labels inside a DST gap/fold hour are don't-care; for period() across a DST change only absolute "
     "spacing is required (the naive label is don't-care); cron and once follow the local wall clock",
     "once(<weekday> ..): only the first occurrence after start is required (the docs say 'once on that day of the "
     "week'); later ones and a same-day start after the time are don't-care; today/tomorrow forms are not generated",
     "an instant may be skipped or fire late only if the loop was stalled past it; clock steps are not injected",
     "sunrise/sunset come from the astral library (treated as environment, same location as the harness)",
+    "task.wait_until(time_trigger=..): each call is one trigger whose 'now' is the instant the call began (known to "
+    "a few loop passes: an instant that close to the beginning may or may not count); required is the return at the "
+    "first denoted instant after it with trigger_type 'time' and that trigger_time, unless a qualifying poke of "
+    "another condition was sent before (then only 'no denoted instant was passed over before the return' is judged; "
+    "which of the other conditions ends the call is C15's subject); a call pending at a reload or at the end is "
+    "judged up to there",
 ]
 TIERS = {
     "quick": {"runs": 2200, "chunk": 70},
     "thorough": {"runs": 40000, "chunk": 200},
 }
-REACH_PROBES = ["successor_probe", "successor_probe_yearly", "successor_probe_at_dst_change", "dst_day_crossed", "early_wakeup_rewait", "two_specs_one_decorator", "startup_fired", "shutdown_fired",
+REACH_PROBES = ["successor_probe", "successor_probe_yearly", "successor_probe_at_dst_change", "successor_probe_leap_day_spec",
+                "successor_probe_sub_second_period", "dst_day_crossed", "early_wakeup_rewait", "two_specs_one_decorator", "startup_fired", "shutdown_fired",
                 "reload_mid_run", "stall_past_instant", "cron_step_or_range", "period_with_end", "sub_second_start",
-                "sunrise_or_sunset", "weekly_or_yearly"]
-SHRINK_LISTS = [["ops"], ["spec", "funcs"], ["spec", "funcs", "*", "specs"]]
+                "sunrise_or_sunset", "weekly_or_yearly", "wait_until_time_return", "wait_until_now_relative",
+                "wait_until_with_other_triggers", "wait_until_woken_not_qualifying", "wait_until_woken_now_relative",
+                "wait_until_other_trigger_first", "wait_until_hold_started_and_cancelled", "wait_until_none_left",
+                "wait_until_pending_at_end"]
+SHRINK_LISTS = [["ops"], ["spec", "funcs"], ["spec", "funcs", "*", "specs"], ["spec", "waiters"],
+                ["spec", "waiters", "*", "specs"], ["spec", "waiters", "*", "others"]]
+OTHER_KINDS = ["state", "event", "mqtt", "webhook"]
 
 DST_EPOCHS = {
     # local evening before a change, UTC (start a few hours before the transition)
@@ -177,8 +203,68 @@ def gen(rng: random.Random, tier: str) -> dict:
     if rng.random() < 0.2:
         ops.append({"at": round(rng.uniform(0.1, 0.9) * window, 2), "kind": "stall",
                     "s": rng.choice([0.05, 2.0, 30.0]) if speed != "fast" else rng.choice([0.05, 2.0])})
+    # (drawn last: the rest of the scenario is the same with and without waiters)
+    waiters = _gen_waiters(rng, speed, local0, window, ops, cfg)
+    # steer = True keeps the run clear of constructs on which the unchanged code is known to deviate (the direct
+    # successor probes of once(2/29 ..) and of sub-second period() intervals), so that half of the runs stay clean
+    steer = rng.random() < 0.5
     ops.sort(key=lambda o: o["at"])
-    return {"cfg": cfg, "spec": {"funcs": funcs, "window": window, "speed": speed, "dst": dst}, "ops": ops}
+    return {"cfg": cfg, "spec": {"funcs": funcs, "window": window, "speed": speed, "dst": dst, "waiters": waiters,
+                                 "steer": steer},
+            "ops": ops}
+
+
+def _gen_wait_spec(rng: random.Random, speed: str, local0: dt.datetime) -> dict:
+    """A time specification for task.wait_until: the same grammar; a now-relative period mostly starts after 'now'
+    (period(now, ..) denotes 'now' itself, so the call would return at once)."""
+    sp = _gen_spec(rng, speed, local0)
+    if sp["type"] == "period" and sp["start"]["date"]["k"] == "now" and not sp["start"]["off"] and rng.random() < 0.7:
+        shift = rng.choice([3, 10.5, 0.5 * sp["iv"]])
+        sp["start"]["off"] = shift
+        if sp.get("end") is not None:
+            sp["end"]["off"] += shift
+    return sp
+
+
+def _gen_waiters(rng: random.Random, speed: str, local0: dt.datetime, window: float, ops: list, cfg: dict) -> list:
+    if rng.random() >= 0.4:
+        return []
+    waiters = []
+    for wi in range(rng.choice([1, 1, 2])):
+        others = sorted(rng.sample(OTHER_KINDS, rng.choice([0, 1, 1, 2, 2, 3])))
+        waiters.append({
+            "name": f"wt{wi}",
+            "specs": [_gen_wait_spec(rng, speed, local0) for _ in range(rng.choice([1, 1, 2]))],
+            "others": others,
+            "hold": rng.choice([None, None, 20.0]) if "state" in others else None,
+            "rounds": rng.choice([2, 3, 5]),
+            "delay": rng.choice([0.0, 0.0, 0.25, 3.5]),    # before the first call
+            "gap": rng.choice([0.0, 0.25, 1.5, 7.75]),     # between a return and the next call
+        })
+    if cfg["tz"] != "US/Pacific":
+        # sunrise/sunset belong to the harness location (see gen)
+        for wt in waiters:
+            for sp in wt["specs"]:
+                if sp["type"] == "once" and sp["at"]["time"]["k"] in ("sunrise", "sunset"):
+                    sp["at"]["time"] = {"k": "noon"}
+    at = 0.0
+    for _ in range(rng.randint(0, 8)):
+        wt = rng.choice(waiters)
+        if not wt["others"]:
+            continue
+        # spread over the window, sometimes in quick succession
+        at = at + rng.choice([0.25, 0.5, 2.0]) if (at and rng.random() < 0.3) else rng.uniform(0.01, 0.95) * window
+        if at >= window:
+            continue
+        via = rng.choice(wt["others"])
+        op = {"at": round(at, 2), "kind": "poke", "w": wt["name"], "via": via, "go": rng.random() < 0.15}
+        if via == "state" and rng.random() < 0.3:
+            # becomes true and, a moment later, false again: with state_hold a hold that is started and cancelled
+            op["go"] = True
+            op["blip"] = rng.choice([0.25, 0.25, 1.0])
+        ops.append(op)
+    cfg["initial_states"] = {f"pyscript.c06{wt['name']}": ["idle", {}] for wt in waiters}
+    return waiters
 
 
 # ------------------------------------------------------------------ rendering
@@ -196,14 +282,64 @@ def render(scn: dict, gen_no: int = 0) -> dict:
         lines.append(f"def {func['name']}(**kw):")
         lines.append(f"    sim.mark({func['name']!r}, {gen_no}, **kw)")
         lines.append("")
+    for wt in scn["spec"].get("waiters") or []:
+        name = wt["name"]
+        if not wt["specs"]:
+            continue
+        lines.append("@time_trigger('startup')")
+        lines.append(f"def {name}():")
+        if wt.get("delay"):
+            lines.append(f"    task.sleep({wt['delay']})")
+        lines.append(f"    for rnd in range({wt['rounds']}):")
+        lines.append(f"        sim.mark({name!r}, {gen_no}, rnd, 'begin')")
+        lines.append(f"        res = {_wait_call_src(wt)}")
+        lines.append(f"        sim.mark({name!r}, {gen_no}, rnd, 'ret', **res)")
+        lines.append("        if res['trigger_type'] == 'none':")
+        lines.append("            break")
+        if "state" in wt["others"]:
+            lines.append("        if res['trigger_type'] == 'state':")
+            lines.append(f"            pyscript.c06{name} = 'idle'")
+        if wt.get("gap"):
+            lines.append(f"        task.sleep({wt['gap']})")
+        lines.append("")
     return {"pyscript/c06.py": "\n".join(lines) + "\n"}
+
+
+def _wait_call_src(wt: dict) -> str:
+    name = wt["name"]
+    specs = [C.spec_src(sp) for sp in wt["specs"]]
+    kw = [f"time_trigger={(specs[0] if len(specs) == 1 else specs)!r}"]
+    if "state" in wt["others"]:
+        expr = f"pyscript.c06{name} == 'go'"
+        kw.append(f"state_trigger={expr!r}")
+        if wt.get("hold"):
+            kw.append(f"state_hold={wt['hold']}")
+    if "event" in wt["others"]:
+        kw.append(f"event_trigger={['c06_ev_' + name, 'n == 1']!r}")
+    if "mqtt" in wt["others"]:
+        flt = "payload == 'go'"
+        kw.append(f"mqtt_trigger={['c06/' + name, flt]!r}")
+    if "webhook" in wt["others"]:
+        flt = "payload['n'] == 1"
+        kw.append(f"webhook_trigger={['c06hook' + name, flt]!r}")
+    return f"task.wait_until({', '.join(kw)})"
 
 
 def normalize(scn: dict) -> dict | None:
     funcs = [f for f in scn["spec"]["funcs"] if f["specs"] or f["startup"] or f["shutdown"]]
-    if not funcs:
+    waiters = [wt for wt in scn["spec"].get("waiters") or [] if wt["specs"]]
+    if not funcs and not waiters:
         return None
     scn["spec"]["funcs"] = funcs
+    if "waiters" in scn["spec"]:
+        scn["spec"]["waiters"] = waiters
+    by_name = {wt["name"]: wt for wt in waiters}
+    for wt in waiters:
+        if "state" not in wt["others"]:
+            wt["hold"] = None
+    # a poke needs its waiter and the condition it addresses
+    scn["ops"] = [op for op in scn["ops"] if op["kind"] != "poke"
+                  or (op["w"] in by_name and op["via"] in by_name[op["w"]]["others"])]
     return scn
 
 
@@ -214,6 +350,22 @@ def simplify(scn: dict):
                 cand = copy.deepcopy(scn)
                 cand["spec"]["funcs"][fi][key] = False
                 yield cand
+    for wi, wt in enumerate(scn["spec"].get("waiters") or []):
+        for key, val in (("hold", None), ("delay", 0.0), ("gap", 0.0), ("rounds", 1), ("rounds", 2)):
+            if wt.get(key) != val and not (key == "rounds" and wt["rounds"] <= val):
+                cand = copy.deepcopy(scn)
+                cand["spec"]["waiters"][wi][key] = val
+                yield cand
+    for oi, op in enumerate(scn["ops"]):
+        if op["kind"] == "poke" and (op.get("go") or op.get("blip")):
+            cand = copy.deepcopy(scn)
+            cand["ops"][oi]["go"] = False
+            cand["ops"][oi].pop("blip", None)
+            yield cand
+    if not scn["spec"].get("steer", True):
+        cand = copy.deepcopy(scn)
+        cand["spec"]["steer"] = True
+        yield cand
     if scn["spec"]["window"] > 300:
         for div in (4, 2):
             cand = copy.deepcopy(scn)
@@ -238,7 +390,7 @@ def warmup() -> None:
 def run(scn: dict) -> dict:
     spec = scn["spec"]
     w = World(scn["cfg"], render(scn, 0))
-    info: dict = {"reloads": [], "stalls": []}
+    info: dict = {"reloads": [], "stalls": [], "pokes": []}
 
     async def driver(w: World):
         info["def0"] = w.loop.vt  # triggers start right after homeassistant_started (fired just before the driver)
@@ -262,6 +414,8 @@ def run(scn: dict) -> dict:
                 info["stalls"].append({"vt0": w.loop.vt, "vt1": w.loop.vt + op["s"]})
                 w.loop.stall(op["s"])
                 w.fault("stall")
+            elif op["kind"] == "poke":
+                await _poke(w, op, info)
         end = t_start + spec["window"]
         if end > w.loop.vt:
             await w.sleep(end - w.loop.vt)
@@ -272,6 +426,28 @@ def run(scn: dict) -> dict:
     w.run(driver)
     violations, nontrivial, extra = oracle(w, scn, info)
     return base_result(w, violations, nontrivial, extra)
+
+
+async def _poke(w: World, op: dict, info: dict) -> None:
+    """Poke one of the other conditions of a waiter's task.wait_until: qualifying (``go``) or not."""
+    name, via, go = op["w"], op["via"], bool(op.get("go"))
+    seq = len(info["pokes"]) + 1
+    rec = {"vt": w.loop.vt, "w": name, "via": via, "go": go, "blip": op.get("blip")}
+    info["pokes"].append(rec)
+    if via == "state":
+        w.set_state(f"pyscript.c06{name}", "go" if go else f"n{seq}")
+        if go and op.get("blip"):
+            await w.sleep(op["blip"])
+            w.set_state(f"pyscript.c06{name}", f"b{seq}")
+            rec["vt_back"] = w.loop.vt
+    elif via == "event":
+        w.fire(f"c06_ev_{name}", {"n": 1 if go else 0, "seq": seq})
+    elif via == "mqtt":
+        w.mqtt_publish(f"c06/{name}", "go" if go else f"x{seq}")
+    elif via == "webhook":
+        await apply_common(w, {"kind": "webhook", "id": f"c06hook{name}", "payload": {"n": 1 if go else 0, "seq": seq}})
+    else:
+        raise ValueError(op)
 
 
 async def successor_probes(w: World, scn: dict) -> list:
@@ -362,6 +538,62 @@ async def successor_probes(w: World, scn: dict) -> list:
             if got is None or abs((got - want).total_seconds()) > 1e-5:
                 out.append({"specs": [src], "now": str(now), "startup": str(st), "got": str(got), "want": str(want),
                             "on_instant": False, "yearly": True})
+    if scn["spec"].get("steer", True):
+        return out  # (half of the runs stay clear of the two constructs below)
+    # ---- once(2/29 hh:mm) without a year: the date exists in leap years only.  Whatever the specification is taken
+    # to denote in the other years (nothing, 2/28 or 3/1 - the documentation does not say), the next real 29th of
+    # February is a denoted instant, so the successor is that one or one of those two readings - never an error, and
+    # never 'none'
+    hms = (rng.randrange(24), rng.randrange(60), rng.choice([0, 0, 30]))
+    at = {"date": {"k": "md", "m": 2, "d": 29}, "time": {"k": "hms", "h": hms[0], "m": hms[1], "s": hms[2]}, "off": 0}
+    src = C.spec_src({"type": "once", "at": at})
+    year = rng.choice([2023, 2024, 2024, 2025, 2027, 2028])
+    nows = [dt.datetime(year, 2, 28, 23, 59, 59), dt.datetime(year, 3, 1, 0, 0, 0), dt.datetime(year, 12, 31, 23, 59, 59),
+            dt.datetime(year, 1, 1, 0, 0, 0), dt.datetime(year, 1, 1) + dt.timedelta(seconds=rng.uniform(0, 365 * 86400))]
+    if year % 4 == 0:
+        nows.append(dt.datetime(year, 2, 29, *hms) - dt.timedelta(minutes=rng.choice([1, 90])))
+    for now in nows:
+        st = now - dt.timedelta(days=1)
+        denoted = C.once_instants(at, st, now, now + dt.timedelta(days=1600), sun)
+        want = denoted[0]
+        accept = {want}
+        for alt in ((2, 28), (3, 1)):
+            cands = [dt.datetime(yr, alt[0], alt[1], *hms) for yr in range(now.year, want.year) if yr % 4]
+            cands = [c for c in cands if now < c < want]
+            if cands:
+                accept.add(cands[0])
+        try:
+            got, _adj = await TrigTime.timer_trigger_next([src], now, st)
+        except Exception as exc:  # pylint: disable=broad-except
+            got = f"raises {type(exc).__name__}({exc})"
+        w.probe("successor_probe_leap_day_spec")
+        if got not in accept:
+            how = "raises" if isinstance(got, str) else ("none" if got is None else "wrong")
+            out.append({"specs": [src], "now": str(now), "startup": str(st), "got": str(got), "want": str(want),
+                        "on_instant": False, "case": "leap_day_spec_" + how})
+    # ---- period(<full date and time>, <interval below or around a second>): 'now' exactly on, and 1 us either side
+    # of, denoted instants (a trigger that wakes up a hair early continues from exactly the instant it has just
+    # fired); the instants are start + k * interval, computed here in whole microseconds
+    iv_us = rng.choice([100000, 100000, 250000, 300000, 700000, 1500000])
+    start = startup.replace(microsecond=0)
+    zone_ = C.Zone(w.cfg["tz"])
+    if not zone_.offset_changes_between(start - dt.timedelta(hours=2), start + dt.timedelta(hours=4)):
+        spec = {"type": "period", "iv": iv_us / 1e6,
+                "start": {"date": {"k": "full", "y": start.year, "m": start.month, "d": start.day},
+                          "time": {"k": "hms", "h": start.hour, "m": start.minute, "s": start.second}, "off": 0}}
+        src = C.spec_src(spec)
+        for k in rng.sample(range(1, 3000), 8):
+            inst = start + dt.timedelta(microseconds=iv_us * k)
+            for now in (inst - dt.timedelta(microseconds=1), inst, inst + dt.timedelta(microseconds=1)):
+                want = inst if now < inst else inst + dt.timedelta(microseconds=iv_us)
+                try:
+                    got, _adj = await TrigTime.timer_trigger_next([src], now, startup)
+                except Exception as exc:  # pylint: disable=broad-except
+                    got = f"raises {type(exc).__name__}({exc})"
+                w.probe("successor_probe_sub_second_period")
+                if not isinstance(got, dt.datetime) or abs((got - want).total_seconds()) > 1e-5:
+                    out.append({"specs": [src], "now": str(now), "startup": str(startup), "got": str(got), "want": str(want),
+                                "on_instant": now == inst, "case": "sub_second_period"})
     return out
 
 
@@ -383,6 +615,209 @@ def _sun_factory(w: World, tzname: str):
         return val.astimezone(tz).replace(tzinfo=None)
 
     return sun
+
+
+def _denoted(w: World, clock, zone, sun, specs: list, startup_local, lo_local, hi_local, vt0: float, vt1: float,
+             slack: float) -> list:
+    """The instants the specifications denote for a trigger that was first evaluated at ``startup_local`` (virtual
+    time ``vt0``) up to virtual time ``vt1``: a list of (vt, local label, kind, strict_label); the single entry
+    ("dontcare_all", ..) says that the documentation does not settle this trigger at all."""
+    expected = []  # (vt, label, kind, strict_label)
+    for sp in specs:
+        if sp["type"] == "once":
+            insts = C.once_instants(sp["at"], startup_local, lo_local, hi_local, sun)
+            if sp["at"]["date"]["k"] == "dow":
+                w.probe("weekly_or_yearly")
+                same_day_passed = (startup_local.isoweekday() % 7 == sp["at"]["date"]["dow"])
+                insts = [] if same_day_passed else insts[:1]
+                if same_day_passed:
+                    expected.append(("dontcare_all", None, None, None))
+            if sp["at"]["date"]["k"] == "md":
+                w.probe("weekly_or_yearly")
+            if sp["at"]["time"]["k"] in ("sunrise", "sunset"):
+                w.probe("sunrise_or_sunset")
+            for inst in insts:
+                expected.append((clock.vt_of_utc(zone.to_utc(inst)), inst, "once:" + sp["at"]["date"]["k"],
+                                 sp["at"]["date"]["k"] != "now"))
+        elif sp["type"] == "cron":
+            if any(ch in sp["expr"] for ch in "/-,"):
+                w.probe("cron_step_or_range")
+            for inst in C.cron_instants(sp["expr"], lo_local - dt.timedelta(hours=2), hi_local + dt.timedelta(hours=2)):
+                vt = clock.vt_of_utc(zone.to_utc(inst))
+                if vt0 < vt <= vt1 + 2 * slack:
+                    expected.append((vt, inst, "cron", True))
+        else:
+            if sp.get("end") is not None:
+                w.probe("period_with_end")
+            anchor: list = []
+            labels = C.period_instants(sp, startup_local, lo_local - dt.timedelta(hours=2),
+                                       hi_local + dt.timedelta(hours=2), sun, anchor)
+            fixed = sp["start"]["date"]["k"] in ("now", "full")
+            for inst in labels:
+                if fixed:
+                    # equal spacing in absolute time from the specification's start
+                    first = anchor[0]
+                    vt = clock.vt_of_utc(zone.to_utc(first)) + (inst - first).total_seconds() / (1.0 + clock.drift)
+                    crossed = zone.offset_changes_between(first, inst) or zone.irregular(inst)
+                    strict = sp["start"]["date"]["k"] != "now" and not crossed
+                else:
+                    vt = clock.vt_of_utc(zone.to_utc(inst))
+                    strict = True
+                if vt0 - 1e-3 <= vt <= vt1 + 2 * slack and (inst > startup_local or (inst == startup_local)):
+                    expected.append((vt, inst, "period", strict))
+    return expected
+
+
+def _judge_waiters(w: World, scn: dict, info: dict, viol, zone, clock, sun, slack: float, stalls: list) -> int:
+    """task.wait_until(time_trigger=...) calls of the waiter functions: every call is a trigger of its own.
+
+    'now' is the instant the call began (its 'begin' marker, known to a few loop passes); the call has to return
+    with trigger_type "time" at the first denoted instant after that and carry it as trigger_time, whatever wakes
+    it up in between without satisfying one of its other conditions.  Returns the number of time returns."""
+    n_time = 0
+    longest_stall = max((s["vt1"] - s["vt0"] for s in stalls), default=0.0)
+
+    def in_stall(vt):
+        return any(s["vt0"] - 1e-6 <= vt <= s["vt1"] + slack for s in stalls)
+
+    for wt in scn["spec"].get("waiters") or []:
+        if not wt["specs"]:
+            continue
+        name = wt["name"]
+        marks = [m for m in w.marks if m["args"] and m["args"][0] == name]
+        begins = {(m["args"][1], m["args"][2]): m for m in marks if m["args"][3] == "begin"}
+        rets = {(m["args"][1], m["args"][2]): m for m in marks if m["args"][3] == "ret"}
+        if len(begins) + len(rets) != len(marks):
+            # the same call number twice in one generation: the waiter itself ('startup') was started twice
+            viol("C06.startup_count", {"want": 1, "form": "wait_until"},
+                 f"{name}: the waiter function ('startup') ran more than once for one definition", marks[-1]["t"])
+            continue
+        if any(key not in begins for key in rets):
+            raise RuntimeError(f"waiter markers of {name} are not begin/ret pairs")
+        func_kind = "cron_only" if all(sp["type"] == "cron" for sp in wt["specs"]) else "has_once_or_period"
+        now_relative = any((sp["type"] == "once" and sp["at"]["date"]["k"] == "now")
+                           or (sp["type"] == "period" and sp["start"]["date"]["k"] == "now") for sp in wt["specs"])
+        timeonly_period = any(sp["type"] == "period" and sp["start"]["date"]["k"] == "none" for sp in wt["specs"])
+        pokes = [pk for pk in info.get("pokes") or [] if pk["w"] == name]
+        if wt["others"]:
+            w.probe("wait_until_with_other_triggers")
+        for key in sorted(begins):
+            beg, ret = begins[key], rets.get(key)
+            t_beg = beg["vt"]
+            desc = (f"{name} gen {key[0]} call {key[1]} begun at wall {beg['wall']}: "
+                    f"{_wait_call_src(wt)} tz={w.cfg['tz']}")
+            # ---- up to where the call is judged: its return, the end of the run, a reload after its beginning, or
+            # the first poke that satisfies one of its other conditions (plus the hold time, if that is the state)
+            cutoff = info["end"]
+            for rel in info["reloads"]:
+                if rel["vt0"] >= t_beg - slack:
+                    cutoff = min(cutoff, rel["vt0"])
+                    break
+            for pk in pokes:
+                if not pk["go"] or pk["vt"] < t_beg - slack:
+                    continue
+                hold = (wt.get("hold") or 0.0) if pk["via"] == "state" else 0.0
+                if pk.get("blip") and hold and pk["blip"] < hold - 2 * slack:
+                    continue  # true for less than the hold time: never qualifies
+                cutoff = min(cutoff, pk["vt"] + hold)
+                break
+            t_ret = ret["vt"] if ret is not None else None
+            horizon = cutoff if t_ret is None else max(min(cutoff, t_ret), t_beg)
+            woken = [pk for pk in pokes if t_beg + slack < pk["vt"] < (t_ret if t_ret is not None else cutoff) - slack
+                     and pk["vt"] < cutoff]
+            if woken:
+                w.probe("wait_until_woken_not_qualifying")
+                if now_relative:
+                    w.probe("wait_until_woken_now_relative")
+                if any(pk.get("blip") and wt.get("hold") for pk in woken):
+                    w.probe("wait_until_hold_started_and_cancelled")
+            if now_relative:
+                w.probe("wait_until_now_relative")
+            startup_local = beg["wall"]
+            hi_local = clock.local_at(horizon + 2 * slack)
+            expected = _denoted(w, clock, zone, sun, wt["specs"], startup_local, startup_local, hi_local, t_beg, horizon,
+                                slack)
+            if any(e[0] == "dontcare_all" for e in expected):
+                continue
+            # ---- the first instant that must end the call, and the don't-care instants before it
+            may, first = [], None
+            for vt, inst, kind, strict in sorted(expected, key=lambda e: e[0]):
+                near_dst = zone.offset_changes_between(inst - dt.timedelta(hours=26), inst + dt.timedelta(hours=26))
+                if kind == "period" and timeonly_period and strict and near_dst:
+                    may.append((vt, inst, kind, strict))  # daily re-anchored period next to a DST change: open
+                elif vt - t_beg < slack + 1e-3:
+                    may.append((vt, inst, kind, strict))  # within a few passes of the beginning: before or after 'now'?
+                elif zone.irregular(inst) and (kind == "cron" or kind.startswith("once")):
+                    may.append((vt, inst, kind, strict))
+                elif in_stall(vt):
+                    w.probe("stall_past_instant")
+                    may.append((vt, inst, kind, strict))
+                elif any(rel["vt0"] - slack <= vt <= rel["vt1"] + slack for rel in info["reloads"]):
+                    may.append((vt, inst, kind, strict))
+                else:
+                    first = (vt, inst, kind, strict)
+                    break
+            wall_ref = ret["wall"] if ret is not None else (first[1] if first else startup_local)
+            after = zone.offset_changes_between(wall_ref - dt.timedelta(days=4), wall_ref + dt.timedelta(hours=25))
+            sig = {"func": func_kind, "dst": "near_change" if after else "none", "form": "wait_until"}
+            rtype = ret["raw_kw"].get("trigger_type") if ret is not None else None
+            label = ret["raw_kw"].get("trigger_time") if ret is not None else None
+            if rtype == "time" and t_ret <= cutoff + slack:
+                n_time += 1
+                w.probe("wait_until_time_return")
+                if not isinstance(label, dt.datetime):
+                    viol("C06.trigger_time_label", {**sig, "kind": "none"},
+                         f"{desc}: returned trigger_type 'time' with trigger_time {label!r}", ret["t"])
+                    continue
+                if zone.irregular(label):
+                    continue  # an instant labelled inside a DST gap/fold hour: don't-care, as for decorated functions
+                if first is not None and -0.005 <= t_ret - first[0] <= slack:
+                    vt, inst, kind, strict = first
+                    if zone.irregular(label):
+                        continue
+                    crossed = zone.offset_changes_between(startup_local, inst) or zone.irregular(inst)
+                    tol = 0.002 if strict else (None if (kind == "period" and crossed) else slack)
+                    if tol is not None and abs((label - inst).total_seconds()) > tol:
+                        viol("C06.trigger_time_label", {**sig, "kind": kind.split(":")[0]},
+                             f"{desc}: returned at wall {ret['wall']} with trigger_time {label}, the denoted instant is "
+                             f"{inst}", ret["t"])
+                    continue
+                if any(-0.005 <= t_ret - vt <= slack + longest_stall for vt, _i, _k, _s in may):
+                    continue
+                if first is not None and t_ret > first[0] + slack:
+                    msig = dict(sig)
+                    if not after:
+                        msig["kind"] = first[2]
+                    viol("C06.missed_instant", msig,
+                         f"{desc}: no return at the first denoted instant {first[1]}; it returned at wall {ret['wall']} with "
+                         f"trigger_time {label}" + (f" after being woken at {[round(pk['vt'] - t_beg, 3) for pk in woken]} s "
+                                                    "into the call without a condition being met" if woken else ""),
+                         first[0] - clock.vt0)
+                else:
+                    viol("C06.spurious_run", sig,
+                         f"{desc}: returned at wall {ret['wall']} (trigger_time {label}), which is no denoted instant; the "
+                         f"first one is {first[1] if first else None}", ret["t"])
+                continue
+            if ret is not None:
+                if rtype == "none":
+                    w.probe("wait_until_none_left")
+                elif rtype != "time":
+                    w.probe("wait_until_other_trigger_first")
+            else:
+                w.probe("wait_until_pending_at_end")
+            # ---- returned for another reason (or after a qualifying poke), or still pending: nothing passed over?
+            limit = min(cutoff, t_ret) if t_ret is not None else cutoff
+            if first is not None and first[0] < limit - slack:
+                msig = dict(sig)
+                if not after:
+                    msig["kind"] = first[2]
+                how = (f"it returned {rtype!r} at wall {ret['wall']}" if ret is not None
+                       else f"still waiting at wall {clock.local_at(cutoff)}")
+                viol("C06.missed_instant", msig,
+                     f"{desc}: no return at the first denoted instant {first[1]}; {how}"
+                     + (f" after being woken at {[round(pk['vt'] - t_beg, 3) for pk in woken]} s into the call without "
+                        "a condition being met" if woken else ""), first[0] - clock.vt0)
+    return n_time
 
 
 def oracle(w: World, scn: dict, info: dict):
@@ -443,49 +878,8 @@ def oracle(w: World, scn: dict, info: dict):
             startup_local = clock.local_at(ep["vt0"])
             lo_local = startup_local
             hi_local = clock.local_at(ep["vt1"] + 2 * slack)  # instants at the very end are kept as don't-care
-            expected = []  # (vt, label, kind, strict_label)
-            for sp in func["specs"]:
-                if sp["type"] == "once":
-                    insts = C.once_instants(sp["at"], startup_local, lo_local, hi_local, sun)
-                    if sp["at"]["date"]["k"] == "dow":
-                        w.probe("weekly_or_yearly")
-                        same_day_passed = (startup_local.isoweekday() % 7 == sp["at"]["date"]["dow"])
-                        insts = [] if same_day_passed else insts[:1]
-                        if same_day_passed:
-                            expected.append(("dontcare_all", None, None, None))
-                    if sp["at"]["date"]["k"] == "md":
-                        w.probe("weekly_or_yearly")
-                    if sp["at"]["time"]["k"] in ("sunrise", "sunset"):
-                        w.probe("sunrise_or_sunset")
-                    for inst in insts:
-                        expected.append((clock.vt_of_utc(zone.to_utc(inst)), inst, "once:" + sp["at"]["date"]["k"],
-                                         sp["at"]["date"]["k"] != "now"))
-                elif sp["type"] == "cron":
-                    if any(ch in sp["expr"] for ch in "/-,"):
-                        w.probe("cron_step_or_range")
-                    for inst in C.cron_instants(sp["expr"], lo_local - dt.timedelta(hours=2), hi_local + dt.timedelta(hours=2)):
-                        vt = clock.vt_of_utc(zone.to_utc(inst))
-                        if ep["vt0"] < vt <= ep["vt1"] + 2 * slack:
-                            expected.append((vt, inst, "cron", True))
-                else:
-                    if sp.get("end") is not None:
-                        w.probe("period_with_end")
-                    anchor: list = []
-                    labels = C.period_instants(sp, startup_local, lo_local - dt.timedelta(hours=2),
-                                               hi_local + dt.timedelta(hours=2), sun, anchor)
-                    fixed = sp["start"]["date"]["k"] in ("now", "full")
-                    for inst in labels:
-                        if fixed:
-                            # equal spacing in absolute time from the specification's start
-                            first = anchor[0]
-                            vt = clock.vt_of_utc(zone.to_utc(first)) + (inst - first).total_seconds() / (1.0 + clock.drift)
-                            crossed = zone.offset_changes_between(first, inst) or zone.irregular(inst)
-                            strict = sp["start"]["date"]["k"] != "now" and not crossed
-                        else:
-                            vt = clock.vt_of_utc(zone.to_utc(inst))
-                            strict = True
-                        if ep["vt0"] - 1e-3 <= vt <= ep["vt1"] + 2 * slack and (inst > startup_local or (inst == startup_local)):
-                            expected.append((vt, inst, "period", strict))
+            expected = _denoted(w, clock, zone, sun, func["specs"], startup_local, lo_local, hi_local, ep["vt0"],
+                                ep["vt1"], slack)
             if any(e[0] == "dontcare_all" for e in expected):
                 continue
             # labels inside a gap/fold hour are don't-care; instants at the very edges of the epoch too
@@ -582,8 +976,11 @@ def oracle(w: World, scn: dict, info: dict):
                     viol("C06.missed_instant", msig,
                          f"{desc}: no run at the denoted instant {inst} (runs near it: {near}; all runs "
                          f"{[str(m['raw_kw']['trigger_time']) for m in timed][:12]})", vt - clock.vt0)
+    n_fired += _judge_waiters(w, scn, info, viol, zone, clock, sun, slack, stalls)
     for bad in info.get("successor") or []:
-        viol("C06.successor_function", {"on_instant": bad["on_instant"]},
+        # (the successor function is shared by both subsystems: the special cases are not split by subsystem)
+        viol("C06.successor_function",
+             {"on_instant": bad["on_instant"], **({"case": bad["case"], "subsystem": "any"} if "case" in bad else {})},
              f"timer_trigger_next({bad['specs']}, now={bad['now']}, startup={bad['startup']}) = {bad['got']}, the earliest "
              f"denoted instant strictly after now is {bad['want']}")
     if w.cfg["drift"] < 0:
